@@ -46,6 +46,9 @@ impl BlockFormatter for BlockIndentRemover {
 
         let indent_ofs = match find_prev_line_break_pos(content, bytes, start_byte_pos, true) {
             Some(pos) => start_byte_pos - pos - 1,
+            // No line break before the block: it starts on the first line of the content,
+            // which begins at byte 0 (if only blanks precede the block).
+            None if is_blank(&bytes[..start_byte_pos]) => start_byte_pos,
             None => 0,
         };
         let mut current_pos = start_byte_pos + 1;
@@ -85,9 +88,18 @@ impl BlockFormatter for BlockIndentRemover {
 fn get_indent_len(content: &str, byte_pos: usize) -> usize {
     let bytes = content.as_bytes();
 
-    find_prev_line_break_pos(content, bytes, byte_pos, false)
-        .and_then(|p| find_next_char_pos(content, bytes, p + 1).map(|e| e - p - 1))
+    // The first line has no line break before it and starts at byte 0.
+    let line_start = find_prev_line_break_pos(content, bytes, byte_pos, false)
+        .map(|p| p + 1)
+        .unwrap_or(0);
+
+    find_next_char_pos(content, bytes, line_start)
+        .map(|e| e - line_start)
         .unwrap_or(0)
+}
+
+fn is_blank(bytes: &[u8]) -> bool {
+    bytes.iter().all(|b| *b == b' ' || *b == b'\t')
 }
 
 #[cfg(test)]
